@@ -147,6 +147,53 @@ Section Str.
       + apply Pp. right. apply in_rev. rewrite Er. now left.
   Qed.
 
+  (* ---------------------------------------------------------------- split ... by n *)
+  Lemma join_app : forall sep (l1 l2 : list str), l1 <> [] -> l2 <> [] ->
+    sl_join sep (l1 ++ l2) = sl_join sep l1 ++ sep ++ sl_join sep l2.
+  Proof.
+    intros sep. induction l1 as [|q t IH]; intros l2 H1 H2; [congruence|].
+    destruct t as [|q2 t'].
+    - cbn [app]. now rewrite join_cons.
+    - change ((q :: q2 :: t') ++ l2) with (q :: ((q2 :: t') ++ l2)).
+      rewrite (join_cons sep q ((q2 :: t') ++ l2)) by (cbn [app]; discriminate).
+      rewrite (IH l2) by (auto; discriminate).
+      rewrite (join_cons sep q (q2 :: t')) by discriminate. now rewrite !app_assoc.
+  Qed.
+
+  (* at most n pieces, which still join to the string; with enough room it is plain split; none for n = 0 *)
+  Theorem splitn_spec : forall sep n s, sep <> [] ->
+    match n with
+    | 0 => sl_splitn ceqb sep 0 s = Some []
+    | S k => exists ps, sl_splitn ceqb sep n s = Some ps /\ ps <> [] /\ length ps <= n /\ sl_join sep ps = s /\
+             (forall qs, sl_split ceqb sep s = Some qs -> length qs <= n -> ps = qs) /\
+             firstn k ps = firstn k (split_go ceqb sep 0 [] s)
+    end.
+  Proof.
+    intros sep n s Hsep. destruct sep as [|c0 sep']; [congruence|]. destruct n as [|k]; [reflexivity|].
+    unfold sl_splitn, sl_split. set (ps := split_go ceqb (c0 :: sep') 0 [] s).
+    pose proof (join_split_go (c0 :: sep') Hsep (length s) s [] (le_n _)) as J. cbn [rev app] in J. fold ps in J.
+    pose proof (split_go_nonempty (c0 :: sep') s 0 []) as NE. fold ps in NE.
+    assert (Eps : split_go ceqb (c0 :: sep') 0 [] s = ps) by reflexivity. clearbody ps. rewrite ?Eps.
+    eexists. split; [reflexivity|]. destruct (Nat.leb_spec (length ps) k) as [Hle|Hgt].
+    - rewrite app_nil_r, firstn_all2 by exact Hle. repeat split; auto; try lia; try (now apply firstn_all2).
+      intros qs Hq _. now inversion Hq.
+    - assert (Hs : skipn k ps <> []).
+      { intros E. apply (f_equal (@length _)) in E. rewrite skipn_length in E. cbn in E. lia. }
+      split; [intros E; apply app_eq_nil in E as [_ E]; discriminate|].
+      split; [rewrite app_length, firstn_length; cbn [length]; lia|].
+      split; [|split].
+      + destruct k as [|k'].
+        * cbn [firstn skipn app sl_join]. exact J.
+        * assert (Hf : firstn (S k') ps <> []).
+          { intros E. apply (f_equal (@length _)) in E. rewrite firstn_length in E. cbn [length] in E. rewrite Nat.min_l in E by lia. discriminate. }
+          rewrite join_snoc by exact Hf. rewrite <- join_app by assumption. now rewrite firstn_skipn.
+      + intros qs Hq Hl. inversion Hq; subst qs. rewrite <- (firstn_skipn k ps) at 3.
+        f_equal. assert (Hl1 : length (skipn k ps) = 1) by (rewrite skipn_length; cbn [length] in Hl; lia).
+        destruct (skipn k ps) as [|x [|y u]]; try discriminate. reflexivity.
+      + rewrite firstn_app, firstn_firstn, Nat.min_id, firstn_length.
+        replace (k - Nat.min k (length ps)) with 0 by lia. cbn [firstn]. now rewrite app_nil_r.
+  Qed.
+
   (* words: no word is empty or contains whitespace, and the words concatenate to the string with
      its whitespace removed *)
   Variable is_space : Ch -> bool.
